@@ -843,12 +843,20 @@ def _render(rows):
 CHOICES = (["list_name", "name", "label", "x"], [["l", "c1", "C1", "1"], ["l", "c2", "C2", "2"]])
 
 
-def layout_case(name, forest, kinds, pool, target_pos, variant=0, ref="${y}", tname="y"):
+def layout_case(name, forest, kinds, pool, target_pos, variant=0, ref="${y}", tname="y", target_container=None):
     """One form: a container tree (kinds[i] in 'gr' for the i-th container in preorder), the target question
     `tname` at position target_pos (0 = root, i = inside the i-th container) and, at every position, referrer rows
     that use `ref` in every reference-bearing column."""
     rows = []
     counter = [0]
+    if target_container is not None:
+        # the statement quantifies over "every placement of referrer and target in every tree of groups and repeats": the
+        # target may itself be a group or repeat (count(${repeat}), ${group} in an expression), including one that
+        # encloses the referrer; no target question is placed (target_pos = -1)
+        tname = pool[target_container - 1]
+        ref = "${" + tname + "}"
+        target_pos = -1
+    open_targets = [0]
 
     def referrers(pos):
         sel = {"type": "select_one l", "name": f"f{pos}", "label": f"L {ref} end", "hint": f"H {ref}",
@@ -880,10 +888,15 @@ def layout_case(name, forest, kinds, pool, target_pos, variant=0, ref="${y}", tn
             row["relevant"] = f"{ref} = 2"
             rows.append(row)
             start = len(rows)
+            is_target = target_container is not None and i == target_container
+            if is_target:
+                open_targets[0] += 1
             place(i)
             walk(children)
+            if is_target:
+                open_targets[0] -= 1
             # repeat_count may only reference a question outside the repeat itself
-            if kind == "r":
+            if kind == "r" and not is_target and not open_targets[0]:
                 inside = any(r.get("name") == tname for r in rows[start:])
                 if not inside:
                     row["repeat_count"] = ref if (variant + i) % 2 == 0 else f"{ref} + 1"
@@ -895,6 +908,23 @@ def layout_case(name, forest, kinds, pool, target_pos, variant=0, ref="${y}", tn
     wb["survey"] = _render(rows)
     wb["choices"] = CHOICES
     return Case(name, md=corpus.wb_to_md(wb), origin="c03-family")
+
+
+def container_target_family(ns, max_depth, pools):
+    """Every forest with n containers x every group/repeat labelling x every *container* as the target of the
+    references (referrers at every position: outside it, inside it, in a sibling subtree)."""
+    out = []
+    sid = 0
+    for n in ns:
+        for forest in forests(n, max_depth):
+            for kinds in itertools.product("gr", repeat=n):
+                sid += 1
+                for tc in range(1, n + 1):
+                    pool_name = pools[(sid + tc) % len(pools)]
+                    out.append(layout_case(f"c03-container-n{n}-s{sid}-{''.join(kinds)}-{pool_name}-c{tc}",
+                                           forest, kinds, NAME_POOLS[pool_name], -1, variant=sid + tc,
+                                           target_container=tc))
+    return out
 
 
 def _height(forest):
@@ -1316,7 +1346,9 @@ def cases(tier, seed):
         out += layout_family(range(0, 4), 4, pools[:3])
         out += layout_family([4], 4, pools, rnd=rnd, sample=0.2, tall_full=True)
         out += random_deep(rnd, 60)
+        out += container_target_family(range(1, 4), 4, pools[:2])
     else:
+        out += container_target_family(range(1, 5), 4, pools)
         out += layout_family(range(0, 5), 4, pools)
         out += layout_family([5], 5, pools, rnd=rnd, sample=0.12, tall_full=False)
         out += random_deep(rnd, 1500)
